@@ -249,7 +249,7 @@ def _wrap_fn(
                 else:
                     raise InvalidReturnError(ret_result)
             else:
-                return await func(*args, **kwargs)
+                return await func(*ok_args, **ok_kw_args)
 
         return cast(_DecoratedFunc, inner_async)
 
@@ -312,7 +312,7 @@ def _wrap_fn(
                 else:
                     raise InvalidReturnError(ret_result)
             else:
-                return func(*ok_args, **kwargs)
+                return func(*ok_args, **ok_kw_args)
 
         return cast(_DecoratedFunc, inner)
 
